@@ -708,6 +708,16 @@ def run_d15_d16(chk, repo):
                     g = a.value.generators[0]
                     test = g.ifs[0] if len(g.ifs) == 1 else ast.BoolOp(op=ast.And(), values=list(g.ifs))
                     decision = ('drop', test, g.target.id if isinstance(g.target, ast.Name) else None, None)
+    if decision is None:
+        # `new_params = [p for p in parameters if <keep>]`
+        for a in ast.walk(f.node):
+            if isinstance(a, (ast.ListComp, ast.GeneratorExp)) and len(a.generators) == 1 and a.generators[0].ifs \
+                    and 'param' in unparse(a.generators[0].iter) and isinstance(a.generators[0].target, ast.Name) \
+                    and unparse(a.elt) == a.generators[0].target.id \
+                    and any(isinstance(x, ast.Attribute) and x.attr == 'fix' for i_ in a.generators[0].ifs for x in ast.walk(i_)):
+                g = a.generators[0]
+                test = g.ifs[0] if len(g.ifs) == 1 else ast.BoolOp(op=ast.And(), values=list(g.ifs))
+                decision = ('keep', test, g.target.id, None)
     if decision is None or decision[2] is None:
         raise AnalysisError('D15: keep decision of _get_unused_parameters_and_rvs not recognised')
     kind, test, pv, loop = decision
